@@ -70,7 +70,7 @@ fn one_history(run: &Run, case: u64) {
         let existing: Vec<u32> = w.raw(false).bands.keys().copied().collect();
         // the same operation on X (current-thread runtime) and on each replica
         let desc;
-        enum OpK { Backup(cs::Opts), Killed(cs::Opts, usize), Delete(Vec<u32>) }
+        enum OpK { Backup(cs::Opts), Killed(cs::Opts, usize), Delete(Vec<u32>), DeleteWithFailingRemove(Vec<u32>, String) }
         let op = if w.sources.is_empty() || roll < 30 {
             if w.steps_done > 0 && roll < 30 {
                 let nm = 1 + rng.below(3) as usize;
@@ -85,6 +85,23 @@ fn one_history(run: &Run, case: u64) {
             let o = random_opts(&mut rng);
             let writes = w.measure_trace(o).iter().filter(|e| e.verb == V::Write).count();
             OpK::Killed(o, rng.below(writes.max(1) as u64) as usize)
+        } else if roll < 78 && !existing.is_empty() {
+            // a delete during which the removal of one particular garbage block fails
+            // (addressed by path, so it is the same fault in every replay)
+            let mut ids: Vec<u32> = existing.iter().copied().filter(|_| rng.chance(1, 3)).collect();
+            if ids.is_empty() {
+                ids.push(*rng.pick(&existing));
+            }
+            let raw = w.raw(false);
+            let kept: Vec<u32> = raw.bands.keys().copied().filter(|b| !ids.contains(b)).collect();
+            let referenced = raw.referenced_blocks(kept);
+            let garbage: Vec<String> = raw.blocks.iter().filter(|(n, _)| !referenced.contains(*n)).map(|(_, b)| b.relpath.clone()).collect();
+            if garbage.len() >= 2 {
+                let victim = rng.pick(&garbage).clone();
+                OpK::DeleteWithFailingRemove(ids, victim)
+            } else {
+                OpK::Delete(ids)
+            }
         } else if roll < 88 && !existing.is_empty() {
             let mut ids: Vec<u32> = existing.iter().copied().filter(|_| rng.chance(1, 3)).collect();
             if ids.is_empty() {
@@ -127,6 +144,27 @@ fn one_history(run: &Run, case: u64) {
                 }
                 run.count("killed_backups_replayed", 1);
             }
+            OpK::DeleteWithFailingRemove(ids, victim) => {
+                desc = format!("delete {ids:?} while remove_file {} fails", &victim[..victim.len().min(20)]);
+                let mode = || Mode::FailPath { verb: V::RemoveFile, path: victim.clone(), kind: conserve::transport::ErrorKind::PermissionDenied };
+                let ic = Icept::new(&w.arch, mode(), 0);
+                let out = cs::delete(ic.transport(2), &w.arch, ids, false, false);
+                if out.ok() {
+                    for id in ids {
+                        w.sources.remove(id);
+                    }
+                }
+                w.steps_done += 1;
+                for (arch, workers) in &replicas {
+                    let ic = Icept::with_jitter(arch, mode(), rng.next_u64());
+                    let o2 = cs::with_workers(*workers, || cs::delete(ic.transport(2), arch, ids, false, false));
+                    if o2.ok() != out.ok() {
+                        run.violation("replica-outcome-differs", format!("{desc}: first {}, replica {}", out.describe(), o2.describe()), json!({"case": case, "step": step, "history": descs}));
+                        return;
+                    }
+                }
+                run.count("deletes_with_a_failing_removal_replayed", 1);
+            }
             OpK::Delete(ids) => {
                 desc = if ids.is_empty() { "gc".to_string() } else { format!("delete {ids:?}") };
                 let r = w.delete(ids, false);
@@ -168,7 +206,7 @@ pub fn run(tier: Tier, replay: Option<Value>) -> i32 {
     let run = Run::new("C17", "exploration", tier, replay);
     run.par_cases(tier.pick(100, 4000), super::threads().min(8), |c| one_history(&run, c));
     run.finish(
-        "histories over {tree mutations, backup(random options), backup killed before its n-th write, delete of a random subset, gc} are executed in lock-step from the same on-disk source states into a first archive (current-thread tokio runtime) and into one (thorough: two) replica archives on multi-thread runtimes with 2 or 8 workers and random yields/sleeps before every storage operation; after every step the complete directory trees must be byte-identical, BANDHEAD/BANDTAIL compared as JSON without start_time/end_time. Within one process every HashMap instance already gets its own random seed, so hash-order dependence shows up without a second process. Distinct = history text with >= 3 archive operations.",
+        "histories over {tree mutations, backup(random options), backup killed before its n-th write, delete of a random subset (sometimes with the removal of one particular garbage block failing, a fault addressed by path), gc} are executed in lock-step from the same on-disk source states into a first archive (current-thread tokio runtime) and into one (thorough: two) replica archives on multi-thread runtimes with 2 or 8 workers and random yields/sleeps before every storage operation; after every step the complete directory trees must be byte-identical, BANDHEAD/BANDTAIL compared as JSON without start_time/end_time. Within one process every HashMap instance already gets its own random seed, so hash-order dependence shows up without a second process. Distinct = history text with >= 3 archive operations.",
         &["timestamps in heads and tails are the only allowed difference", "a separate-process replay was not added (per-instance hash seeds make it redundant)"],
         None,
         &[("archive_pairs_compared", 100), ("killed_backups_replayed", 3), ("histories_completed", 10)],
